@@ -248,6 +248,15 @@ func checkExported(data []byte) []core.Violation {
 			}
 		}
 	}
+	// the quick module-path extractor is total too
+	func() {
+		defer func() {
+			if r := recover(); r != nil {
+				vs = append(vs, core.Violation{Sig: "c20:panic:ModulePath", What: fmt.Sprintf("ModulePath panicked (%v) on %s", r, q)})
+			}
+		}()
+		modfile.ModulePath(data)
+	}()
 	strict, lax := res["Parse"], res["ParseLax"]
 	if strict.f != nil && strict.err == nil && !lax.hang && lax.panic == nil {
 		if lax.err != nil || lax.f == nil {
